@@ -1,6 +1,11 @@
-SOURCE_COMMITS = []
+SOURCE_COMMITS = ["d2e4e29 fix: wake all waiting accepts when a connection is released (unguarded repair, C18)"]
 
 claim("C09",
       "Bounded symbolic execution of the real RequestCounter/ring buffer against a sliding-window-log reference: for every interval and every non-decreasing timestamp sequence within the bound the SMT solver shows Add's verdict equals the reference. Bounded (events, limit), full-width values.",
       "Trusted: go/ssa lowering, symgo interpreter + native models (sync.Mutex, time.Unix/UnixNano), z3. Outside the claim: go-cache expiry timing, sockets.",
       "DESIGN.md 3 C09")
+
+claim("C18",
+      "Inductive step of the real connlimiter.counter from an arbitrary 64-bit state satisfying the representation invariant (increment/decrement preserve it, stop/resume hysteresis exact), plus bounded exploration of all orders of accept / close / double close / listener close on two limitListeners sharing one limiter with the real sync.Cond protocol (coroutine threads, arbitrary Signal waiter), asserting the open+pending bound inside the inner Accept and 'no waiter stays blocked while the limiter accepts' at every quiescent state.",
+      "Trusted: symgo models of sync.Mutex/Cond/atomic and its cooperative scheduler (switches at synchronisation points only, no data races), go/ssa, z3. Bounds: stop<=3, <=2 waiters, 3 (quick) / 5 (thorough) close operations, operations run to quiescence one at a time. Outside the claim: net listeners, TLS, ants pools, the TCP pipeline semaphore (not yet encoded), fairness.",
+      "DESIGN.md 3 C18")
